@@ -347,6 +347,65 @@ def gen_ascii85(out):
     out.append(nat_def("ahxNeedsPad", odd[0].test, ["idx"], cond=True))
 
 
+def gen_predictor_dispatch(out, tmod):
+    """pdftypes.py, PDFStream._decode: the `if pred == 1 / elif pred == 2 / elif pred >= 10 / else` chain (branch
+    kind: 0 = no predictor, 1 = apply_tiff_predictor, 2 = apply_png_predictor, 3 = raise) and the defaults of
+    Colors / Columns / BitsPerComponent in the TIFF and the PNG branch."""
+    fn = P.find_function(tmod, "PDFStream._decode")
+    chain = None
+    for n in ast.walk(fn):
+        if isinstance(n, ast.If) and isinstance(n.test, ast.Compare) and isinstance(n.test.left, ast.Name) \
+                and n.test.left.id == "pred":
+            chain = n
+            break
+    if chain is None:
+        raise P.Untranslatable("_decode: predictor chain not found")
+
+    def branch_kind(body):
+        calls = [c.func.id for st in body for c in ast.walk(st)
+                 if isinstance(c, ast.Call) and isinstance(c.func, ast.Name)
+                 and c.func.id in ("apply_tiff_predictor", "apply_png_predictor")]
+        if len(body) == 1 and isinstance(body[0], ast.Pass):
+            return 0, None
+        if any(isinstance(st, ast.Raise) for st in body) and not calls:
+            return 3, None
+        if calls == ["apply_tiff_predictor"] or calls == ["apply_png_predictor"]:
+            dflt = {}
+            for st in body:
+                for c in ast.walk(st):
+                    if (isinstance(c, ast.Call) and isinstance(c.func, ast.Attribute) and c.func.attr == "get"
+                            and isinstance(c.func.value, ast.Name) and c.func.value.id == "params" and len(c.args) == 2
+                            and isinstance(c.args[0], ast.Constant) and isinstance(c.args[1], ast.Constant)):
+                        dflt[c.args[0].value] = c.args[1].value
+            if sorted(dflt) != ["BitsPerComponent", "Colors", "Columns"]:
+                raise P.Untranslatable("_decode: predictor branch reads " + repr(sorted(dflt)))
+            return (1 if calls[0] == "apply_tiff_predictor" else 2), dflt
+        raise P.Untranslatable("_decode: predictor branch not understood")
+
+    parts, defaults = [], {}
+    node = chain
+    while True:
+        k, d = branch_kind(node.body)
+        if d is not None:
+            defaults[k] = d
+        parts.append(f"if {nat_cond(node.test)} then {k} else ")
+        if len(node.orelse) == 1 and isinstance(node.orelse[0], ast.If):
+            node = node.orelse[0]
+            continue
+        k, d = branch_kind(node.orelse)
+        if d is not None:
+            defaults[k] = d
+        parts.append(str(k))
+        break
+    out.append("\n-- pdftypes.py: PDFStream._decode, predictor dispatch\n")
+    out.append("def predKind (pred : Nat) : Nat := " + "".join(parts) + "\n")
+    for k, nm in ((1, "TIFF"), (2, "PNG")):
+        if k not in defaults:
+            raise P.Untranslatable(f"_decode: no {nm} predictor branch")
+        d = defaults[k]
+        out.append(f"def PRED_{nm}_DEFAULTS : Nat × Nat × Nat := ({d['Colors']}, {d['Columns']}, {d['BitsPerComponent']})\n")
+
+
 def generate(lean_dir: str):
     out = [P.HEADER.format(src="pdfminer/utils.py, pdfminer/pdftypes.py, pdfminer/lzw.py, pdfminer/runlength.py, pdfminer/pdfparser.py, pdfminer/ascii85.py", ns="Filters")]
     mod = P.parse_file("pdfminer/utils.py")
@@ -379,6 +438,7 @@ def generate(lean_dir: str):
     gen_rl(out)
     gen_pred(out, mod)
     gen_parser(out)
+    gen_predictor_dispatch(out, tmod)
     gen_ascii85(out)
     out.append("\nend PdfVerif.Gen.Filters\n")
     path = os.path.join(lean_dir, "PdfVerif", "Gen", "Filters.lean")
